@@ -20,7 +20,8 @@ vars == <<mode, phase, g, x>>
 ASSUME PrintT(ToJson([kind |-> "meta", ftable |-> FTable, acts |-> ActNames]))
 
 (* ------------------------------------------------------------------ genomes, built step by step *)
-Pattern(k) == [i \in 1 .. NumTraitParams |-> ((k + 3 * i) % Len(FTable)) + 1]     \* all classes of symbols occur
+Pattern(k) == [i \in 1 .. NumTraitParams |-> ((k + 5 * i) % Len(FTable)) + 1]     \* 8 distinct symbols, all classes occur
+ASSUME \A k \in 0 .. 11 : Cardinality(Rng(Pattern(k))) = NumTraitParams
 Empty == [id |-> 7, traits |-> <<>>, nodes |-> <<>>, genes |-> <<>>, mods |-> <<>>]
 NT == Len(g.traits)
 Count(r) == Len(SelectRole(g, r))
